@@ -393,6 +393,9 @@ pub enum GOp {
     N { bits: u32 },
     /// return the k-th thing currently held (mod count)
     R { k: u32 },
+    /// return ip/bits although it is not held: carried out only when the whole block is free
+    /// at that moment (a redundant return, which must change nothing)
+    Q { ip: u32, bits: u32 },
 }
 
 #[derive(Serialize, Deserialize, Clone, Debug)]
@@ -574,6 +577,25 @@ fn run_gen(case: &GCase) -> Outcome {
                     }
                 }
             }
+            GOp::Q { ip, bits } => {
+                let (a, b) = net_range(ip, bits);
+                if !free.contains_all(a, b) {
+                    continue;
+                }
+                let r = catching(|| {
+                    if bits == 32 {
+                        g.return_ip(Ipv4Address::from(ip))
+                    } else {
+                        g.return_subnet(net(ip, bits))
+                    }
+                });
+                if let Err(p) = r {
+                    out.violate(Violation::new("panic", &panic_class(&p), format!("redundant return panicked: {}", p.msg)));
+                    break;
+                }
+                out.count("probe_redundant_return_of_a_free_block");
+                fnv_u64(&mut h, a ^ b << 32 ^ 2);
+            }
             GOp::R { k } => {
                 if held.is_empty() {
                     continue;
@@ -656,12 +678,18 @@ fn gen_gcase(seed: u64, opts: &RunOpts) -> GCase {
     };
     let span = hi - lo + 1;
     let n = rng.range(1, 60);
+    let redundant = !opts.avoids("no_redundant_returns") && rng.chance(1, 2);
     for _ in 0..n {
-        let op = match rng.below(10) {
+        let op = match rng.below(if redundant { 12 } else { 10 }) {
             0 | 1 => {
                 let nb = *rng.pick(&[32u32, 31, 30, 28, 24]);
                 let ip = (lo + rng.below(span.min(1 << 20))) as u32;
                 GOp::B { ip, bits: nb }
+            }
+            10 | 11 => {
+                let nb = *rng.pick(&[32u32, 32, 31, 30, 29, 28, 24]);
+                let ip = (lo + rng.below(span.min(1 << 12))) as u32;
+                GOp::Q { ip, bits: nb }
             }
             2 | 3 | 4 | 5 => GOp::F,
             6 | 7 => GOp::N {
